@@ -4,7 +4,7 @@
    where "=" means the implementation's observation equals the model's, and props are the ids of
    the properties whose Spec the implementation's observation falsifies on this input. *)
 From Coq Require Import String.
-Require Import Base Node Command Glob Selector SelParse Policy PolicyIpld Chain Varint Generated Did Cbor Envelope Token SealProofs Base64 Container Stream SealedBytes Args DagJson.
+Require Import Base Node Command Glob Selector SelParse Policy PolicyIpld Chain Varint Generated Did Cbor Envelope Token SealProofs Base64 Container Stream SealedBytes Args DagJson Literal.
 Local Open Scope N_scope.
 
 Definition nstr (n : node) : str := match n with Str s => s | Bytes s => s | _ => [] end.
@@ -945,8 +945,75 @@ Definition args_unordered (o : node) : node :=
   | _ => o
   end.
 
+(* a Go value as the harness describes it: [tag; payload] *)
+Fixpoint gval_of (fuel : nat) (n : node) : gval :=
+  match fuel with
+  | O => GOther
+  | S f =>
+    match n with
+    | List [Str t; p] =>
+        if str_eqb t (lit "bool") then GBool (nbool p)
+        else if str_eqb t (lit "str") then GStr (nstr p)
+        else if str_eqb t (lit "int") then GInt (nint p)
+        else if str_eqb t (lit "uint") then GUint (Z.to_N (nint p))
+        else if str_eqb t (lit "float") then match p with Float b => GFloat b | _ => GOther end
+        else if str_eqb t (lit "bytes") then match p with Bytes b => GBytes b | _ => GOther end
+        else if str_eqb t (lit "nbytes") then match p with Bytes b => GNamedBytes b | _ => GOther end
+        else if str_eqb t (lit "node") then GNode p
+        else if str_eqb t (lit "cid") then match p with Link c => GCid c | _ => GOther end
+        else if str_eqb t (lit "slice") then GSlice (map (gval_of f) (nlist p))
+        else if str_eqb t (lit "array") then GArray (map (gval_of f) (nlist p))
+        else if str_eqb t (lit "map") then
+          GMap (map (fun e => match e with List [Str k; v] => (k, gval_of f v) | _ => ([], GOther) end) (nlist p))
+        else if str_eqb t (lit "ptr") then GPtr (gval_of f p)
+        else if str_eqb t (lit "nil") then GNilPtr
+        else GOther
+    | _ => GOther
+    end
+  end.
+
+Fixpoint denotesb (fuel : nat) (v : gval) (n : node) : bool :=
+  match fuel with
+  | O => false
+  | S f =>
+    match v, n with
+    | GBool b, Bool b' => Bool.eqb b b'
+    | GStr s, Str s' => str_eqb s s'
+    | GInt z, Int z' => (z =? z')%Z
+    | GUint u, Int z' => (Z.of_N u =? z')%Z
+    | GFloat x, Float y => (x =? y)%N
+    | GBytes b, Bytes b' => str_eqb b b'
+    | GNamedBytes b, Bytes b' => str_eqb b b'
+    | GNode x, _ => node_eqb x n
+    | GCid c, Link c' => str_eqb c c'
+    | GSlice l, List ns | GArray l, List ns =>
+        (length l =? length ns)%nat && forallb (fun p => denotesb f (fst p) (snd p)) (combine l ns)
+    | GMap m, Map es =>
+        (length m =? length es)%nat &&
+        forallb (fun kv => match map_get (fst kv) es with Some x => denotesb f (snd kv) x | None => false end) m
+    | GPtr x, _ => denotesb f x n
+    | GNilPtr, Null => true
+    | _, _ => false
+    end
+  end.
+
 Definition eng_args (inp impl : node) : verdict :=
   match inp with
+  | List [Str op; Str what; desc] =>
+      (* literal.Any on a Go value. C10: "stored exactly or rejected, never silently altered" - which values are taken is the
+         implementation's choice (Literal.v transcribes today's); what is pinned is that a node that comes out says what the
+         value says ([denotesb], the executable face of Literal.denotes, order of map entries aside) *)
+      let v := gval_of (S (node_size desc)) desc in
+      let m := res_node (fun x => x) (lit_any v) in
+      match impl with
+      | List [Str o; n] =>
+          if str_eqb o (lit "ok") then
+            if denotesb (S (node_size desc)) v n then {| model_obs := impl; violated := [] |}
+            else {| model_obs := m; violated := [lit "C10"] |}
+          else {| model_obs := m; violated := [lit "C10"] |}
+      | List [Str o] => if str_eqb o (lit "err") then {| model_obs := impl; violated := [] |} else {| model_obs := m; violated := [lit "C10"] |}
+      | _ => {| model_obs := m; violated := [lit "C10"] |}
+      end
   | List [Str kind; List ops] =>
       let ci := str_eqb kind (lit "args") in
       let ists := match impl with List (List l :: _) => l | _ => [] end in
